@@ -623,7 +623,19 @@ func (fc *FnCtx) evalSliceExpr(st *State, x *ast.SliceExpr) Val {
 			fc.assert(st, and(fc.leIdx(hi, mx), fc.leIdx(mx, capT)), "bounds", "slice max in range", x.Pos())
 		}
 		fc.assert(st, and(fc.leIdx(zero, lo), fc.leIdx(lo, hi), fc.leIdx(hi, mx)), "bounds", "slice bounds 0 <= lo <= hi <= cap", x.Pos())
-		t2 := app("mk-slice", app("s-arr", base.T), fc.addIdx(app("s-off", base.T), lo), fc.subIdx(hi, lo), fc.subIdx(mx, lo))
+		newOff := fc.addIdx(app("s-off", base.T), lo)
+		if _, lit := new(big.Int).SetString(lo, 10); !lit && fc.cs != nil && fc.cs.IndexElt && fc.inSpec == 0 {
+			// symbolic lower bound: name the new offset by an atomic constant so that the view-shift identity
+			// elt(c, newoff, i) == elt(c, off, i+lo) has a pattern the solver's arithmetic normal form cannot break
+			no := fc.fresh("voff", fc.I())
+			fc.assume(st, app("=", no, newOff))
+			fn := fc.eltFn(t.Elem())
+			I := fc.I()
+			fc.assume(st, fmt.Sprintf("(forall ((c (Array %s %s)) (i %s)) (! (= (%s c %s i) (%s c %s %s)) :pattern ((%s c %s i))))",
+				I, fc.sortOf(t.Elem()), I, fn, no, fn, app("s-off", base.T), fc.addIdx("i", lo), fn, no))
+			newOff = no
+		}
+		t2 := app("mk-slice", app("s-arr", base.T), newOff, fc.subIdx(hi, lo), fc.subIdx(mx, lo))
 		fc.viewShift(st, base, lo, t.Elem())
 		return Val{T: fc.define("slice", "Slice", t2), Ty: fc.typeOf(x)}
 	case *types.Basic: // string
